@@ -3,37 +3,52 @@
    [pk] is the proposer's private key, the genesis names its address [Addr pk].  "Signed by the
    proposer" = the item carries the term [Sig pk <its own content>]; an adversarial item is ANY item
    that does not (own keys, re-signed copies, copies of genuine signatures on altered content, junk,
-   no signature).  The pinned code does NOT have the property: the four [_refuted] theorems are
-   kernel-checked counterexamples on the faithful model (reproduced on the real code by harness/c03);
-   the [_partial] theorems say what the code does guarantee, under a named decidable guard. *)
+   no signature).
+   State after the repairs committed in /repo (signer.address bound to signer.pubkey in ValidateBasic
+   and isValidSignedData; SignedData without Metadata ignored): everything that concerns the DA layer
+   and what a full node applies is [_full].  The P2P path still lacks the property ([_refuted] +
+   [_partial]): go-header never looks at a header's signature, and P2P transaction data carries none. *)
 From Coq Require Import NArith ZArith List Bool.
 From Verif Require Import Model.Types Model.Admission Proofs.AdmissionProofs.
 Import ListNotations.
 
-(* ---- DA path, headers --------------------------------------------------------------------------- *)
-(* full statement: a header blob that gets a DA-included mark / is handed to the syncer is signed by the
-   proposer.  FALSE (F3): nothing ties signer.address to signer.pubkey. *)
-Theorem C03_da_header_refuted :
-  ~ (forall g pk sh, g_proposer g = Addr pk -> admit_da_header g sh = true -> signed_by pk sh = true).
-Proof. exact da_header_refuted. Qed.
-Print Assumptions C03_da_header_refuted.
+(* ---- DA path ------------------------------------------------------------------------------------ *)
+(* every header blob that gets a DA-included mark / is handed to the syncer is signed by the proposer *)
+Theorem C03_da_header_full : forall pk g, g_proposer g = Addr pk -> forall sh,
+  admit_da_header g sh = true -> signed_by pk sh = true.
+Proof. exact da_header_full. Qed.
+Print Assumptions C03_da_header_full.
 
-(* guard: the signer's address is the address of the signer's key *)
-Theorem C03_da_header_partial : forall pk g, g_proposer g = Addr pk -> forall sh,
-  signer_consistent (sh_signer sh) = true -> admit_da_header g sh = true -> signed_by pk sh = true.
-Proof. exact da_header_partial. Qed.
-Print Assumptions C03_da_header_partial.
+Theorem C03_da_data_full : forall pk g, g_proposer g = Addr pk -> forall sd,
+  admit_da_data g sd = true -> data_signed_by pk sd = true.
+Proof. exact da_data_full. Qed.
+Print Assumptions C03_da_data_full.
 
-(* ---- DA path, transaction data ------------------------------------------------------------------ *)
-Theorem C03_da_data_refuted :
-  ~ (forall g pk sd, g_proposer g = Addr pk -> admit_da_data g sd = true -> data_signed_by pk sd = true).
-Proof. exact da_data_refuted. Qed.
-Print Assumptions C03_da_data_refuted.
+(* ---- what a full node applies, stores, caches: ALL traffic (DA and P2P, any order, any origin) ----- *)
+(* every block the node applies and stores has a header signed by the proposer, and its transactions are
+   the ones that header commits to; so is every header waiting in the cache *)
+Theorem C03_applied_signed_full : forall pk g, g_proposer g = Addr pk -> forall now tb l s,
+  sync_inv pk s -> sync_inv pk (node_final g now tb s l).
+Proof. exact applied_signed_full. Qed.
+Print Assumptions C03_applied_signed_full.
 
-Theorem C03_da_data_partial : forall pk g, g_proposer g = Addr pk -> forall sd,
-  signer_consistent (sd_signer sd) = true -> admit_da_data g sd = true -> data_signed_by pk sd = true.
-Proof. exact da_data_partial. Qed.
-Print Assumptions C03_da_data_partial.
+(* no traffic whatsoever makes a goroutine of the node panic *)
+Theorem C03_no_crash_full : forall g now tb l s,
+  n_crashed s = false -> n_crashed (node_final g now tb s l) = false.
+Proof. exact no_crash_full. Qed.
+Print Assumptions C03_no_crash_full.
+
+(* third-party material on the DA layer neither halts a full node nor prevents it from following the
+   proposer's chain: for every genuine traffic gs (DA and P2P), every list adv of DA blobs not signed by
+   the proposer, every interleaving m, every executor: the ENTIRE node state (store, state, caches, DA
+   marks, header/data stores, halted, crashed) is that of the genuine run *)
+Theorem C03_no_halt_da_full : forall pk g, g_proposer g = Addr pk -> forall now tb gs adv m,
+  interleave gs adv m ->
+  forallb (init_ok pk) gs = true -> forallb (da_adversarial pk) adv = true ->
+  forall s, hstore_inv pk s ->
+  node_final g now tb s m = node_final g now tb s gs.
+Proof. exact no_halt_da_full. Qed.
+Print Assumptions C03_no_halt_da_full.
 
 (* ---- P2P path: the header store of a light (header-only) node and of a full node ------------------ *)
 (* full statement: a store holding only proposer-signed headers still does after any gossip item.
@@ -51,10 +66,9 @@ Theorem C03_p2p_header_partial : forall pk now l st,
 Proof. exact light_run_names. Qed.
 Print Assumptions C03_p2p_header_partial.
 
-(* ---- the syncing full node: third-party material neither halts it nor changes where it ends ------- *)
-(* full statement: for every genuine traffic gs and adversarial traffic adv, every interleaving m leaves
-   the node in the state gs alone leaves it in.  FALSE: an admitted forgery for the next height fails
-   validation inside trySyncNextBlock and SyncLoop returns. *)
+(* full statement with adversarial traffic on BOTH channels: every interleaving leaves the node where the
+   genuine traffic alone leaves it.  FALSE, through P2P only: unauthenticated data gossip for the next
+   height is cached, the genuine header then fails validation and SyncLoop returns. *)
 Theorem C03_no_halt_refuted :
   ~ (forall g pk now tb gs adv m s, g_proposer g = Addr pk -> interleave gs adv m ->
        forallb (init_ok pk) gs = true -> forallb (adversarial pk) adv = true -> hstore_inv pk s ->
@@ -62,17 +76,8 @@ Theorem C03_no_halt_refuted :
 Proof. exact no_halt_refuted. Qed.
 Print Assumptions C03_no_halt_refuted.
 
-(* and a forged data blob without Metadata kills the process (nil dereference in the retrieve goroutine) *)
-Theorem C03_no_crash_refuted :
-  ~ (forall g pk now tb l s, g_proposer g = Addr pk -> forallb (adversarial pk) l = true ->
-       n_crashed s = false -> n_crashed (node_final g now tb s l) = false).
-Proof. exact no_crash_refuted. Qed.
-Print Assumptions C03_no_crash_refuted.
-
-(* guard [harmless]: DA items whose signer address is derived from the signer key OR does not name the
-   proposer; header gossip that does not name the proposer; data gossip that does not hash-link to the
-   data head.  For these, all interleavings, all genuine traffic, all executors: the ENTIRE node state
-   (store, state, caches, DA marks, header/data stores, halted, crashed) is that of the genuine run. *)
+(* guard [harmless]: anything on DA; header gossip that does not name the proposer; data gossip that does
+   not hash-link to the data head *)
 Theorem C03_no_halt_partial : forall pk g, g_proposer g = Addr pk -> forall now tb gs adv m,
   interleave gs adv m ->
   forallb (init_ok pk) gs = true -> forallb (harmless pk) adv = true ->
@@ -81,49 +86,73 @@ Theorem C03_no_halt_partial : forall pk g, g_proposer g = Addr pk -> forall now 
 Proof. exact no_halt_partial. Qed.
 Print Assumptions C03_no_halt_partial.
 
-(* guard [item_consistent] on ALL traffic (any order, any origin): every block the node applies and
-   stores has a header signed by the proposer, and its transactions are the ones that header commits to;
-   so is every header waiting in the cache. *)
-Theorem C03_applied_signed_partial : forall pk g, g_proposer g = Addr pk -> forall now tb l s,
-  forallb item_consistent l = true -> sync_inv pk s -> sync_inv pk (node_final g now tb s l).
-Proof. exact applied_signed_partial. Qed.
-Print Assumptions C03_applied_signed_partial.
-
 (* ---- non-vacuity --------------------------------------------------------------------------------- *)
+Local Open Scope N_scope.
 (* the genuine run applies both blocks, does not halt, and reaches DA-included height 2 *)
 Example ex_genuine_run :
   let s := node_final W.gen W.now W.tb W.s0 W.genuine in
   (n_height s, n_halted s, n_crashed s, da_included_height W.gen s, List.length (n_applied s))
-  = (2%N, false, false, 2%N, 2%nat).
+  = (2, false, false, 2, 2%nat).
 Proof. vm_compute. reflexivity. Qed.
 
-(* the forged header (proposer's address, third-party key) is adversarial, is admitted, halts the node at height 0 *)
-Example ex_forgery_halts :
-  let s := node_final W.gen W.now W.tb W.s0 (IDA (BHdr W.fsh1) :: W.genuine) in
-  (adversarial W.pk (IDA (BHdr W.fsh1)), admit_da_header W.gen W.fsh1, signed_by W.pk W.fsh1,
-   n_height s, n_halted s, da_included_height W.gen s)
-  = (true, true, false, 0%N, true, 0%N).
-Proof. vm_compute. reflexivity. Qed.
-
-(* the guards are met by non-trivial traffic: an attacker with a consistent signer under its OWN address,
-   a re-signed mutated copy, junk, non-linking gossip — interleaved with the genuine run: no effect *)
-Local Open Scope N_scope.
+(* third-party DA traffic of every shape — the F3 forgeries (header, data, data without Metadata), an honest
+   third party under its own address, a re-signed copy, a stolen signature on altered content, junk —
+   meets the hypothesis of C03_no_halt_da_full *)
 Definition own_signer : signer := {| sg_pub := Some (Pub W.ak); sg_addr := Addr W.ak |}.
 Definition own_hdr : header := Header 1 1000 7 None [] 50 (Addr W.ak).
 Definition own_sh : sheader := {| sh_hdr := own_hdr; sh_sig := Sig W.ak own_hdr; sh_signer := own_signer |}.
-Definition resigned : sheader := {| sh_hdr := W.F1; sh_sig := Sig W.ak W.F1;
-                                    sh_signer := {| sg_pub := Some (Pub W.ak); sg_addr := Addr W.ak |} |}.
+Definition resigned : sheader := {| sh_hdr := W.F1; sh_sig := Sig W.ak W.F1; sh_signer := own_signer |}.
 Definition stolen_sig : sheader := {| sh_hdr := W.F1; sh_sig := Sig W.pk W.H1; sh_signer := W.prop_signer |}.
-Definition harmless_adv : list item :=
-  [ IDA (BHdr own_sh); IDA (BHdr resigned); IDA (BHdr stolen_sig); IDA BJunk; IDA BHdrUndecodable;
-    IGossipH own_sh; IGossipD W.FD false ].
-Example ex_harmless_guard : forallb (harmless W.pk) harmless_adv = true /\ forallb (adversarial W.pk) harmless_adv = true
-  /\ forallb (init_ok W.pk) W.genuine = true /\ forallb item_consistent (W.genuine ++ harmless_adv) = true.
+Definition da_adv : list item :=
+  [ IDA (BHdr W.fsh1); IDA (BData W.fsd); IDA (BData W.fsd_nometa); IDA (BHdr own_sh); IDA (BHdr resigned);
+    IDA (BHdr stolen_sig); IDA BJunk; IDA BHdrUndecodable; IDA BEmpty ].
+Example ex_da_guard : forallb (da_adversarial W.pk) da_adv = true /\ forallb (init_ok W.pk) W.genuine = true
+  /\ forallb (init_ok W.pk) W.genuine_p2p = true.
 Proof. vm_compute. repeat split; reflexivity. Qed.
+Example ex_harmless_p2p : forallb (harmless W.pk) [IGossipH own_sh; IGossipD W.FD false] = true.
+Proof. vm_compute. reflexivity. Qed.
 
-(* the light node: an unsigned header that names the proposer and hash-links to the head is stored *)
+(* the P2P witness: genuine P2P traffic reaches height 2; with one unauthenticated data item the node halts at 1 *)
+Example ex_p2p_data_halts :
+  let a := node_final W.gen W.now W.tb W.s0 W.genuine_p2p in
+  let b := node_final W.gen W.now W.tb W.s0 W.mixed_p2p in
+  (n_height a, n_halted a, n_height b, n_halted b, adversarial W.pk (IGossipD W.FD true)) = (2, false, 1, true, true).
+Proof. vm_compute. reflexivity. Qed.
+
+(* the light node: an unsigned header that names the proposer and hash-links to the head is stored, and the
+   genuine header of that height is then rejected as known *)
 Example ex_light_stores_unsigned :
   (p2p_validate W.ush2, p2p_verify W.now W.sh1 W.ush2, validate_basic W.ush2,
    List.length (light_run W.now [W.sh1] [W.ush2; W.sh2]))
   = (true, VAccept, false, 2%nat).
+Proof. vm_compute. reflexivity. Qed.
+
+(* ---- the defects that were repaired, kept as Examples ------------------------------------------------ *)
+(* ValidateBasic / isValidSignedData before the fix "bind the signer's address to the signer's public key" *)
+Definition validate_basic_before (sh : sheader) : bool :=
+  negb (addr_eqb (h_proposer (sh_hdr sh)) AddrEmpty) &&
+  match sh_sig sh with SigEmpty => false | _ => true end &&
+  addr_eqb (h_proposer (sh_hdr sh)) (sg_addr (sh_signer sh)) &&
+  match sg_pub (sh_signer sh) with Some p => verify_header p (sh_hdr sh) (sh_sig sh) | None => false end.
+Definition is_valid_signed_data_before (g : genesis) (sd : sdata) : bool :=
+  addr_eqb (sg_addr (sd_signer sd)) (g_proposer g) &&
+  match sg_pub (sd_signer sd) with Some p => verify_data p (sd_data sd) (sd_sig sd) | None => false end.
+
+(* F3: a header signed with a third-party key under the proposer's ADDRESS passed; it does not any more *)
+Example before_the_repair_forged_header_admitted :
+  (validate_basic_before W.fsh1, signed_by W.pk W.fsh1, validate_basic W.fsh1, admit_da_header W.gen W.fsh1)
+  = (true, false, false, false).
+Proof. vm_compute. reflexivity. Qed.
+Example before_the_repair_forged_data_admitted :
+  (is_valid_signed_data_before W.gen W.fsd, data_signed_by W.pk W.fsd, is_valid_signed_data W.gen W.fsd,
+   admit_da_data W.gen W.fsd) = (true, false, false, false).
+Proof. vm_compute. reflexivity. Qed.
+(* the forged data blob without Metadata was admitted and then dereferenced (panic); now it is ignored *)
+Example before_the_repair_nil_metadata_panic :
+  (is_valid_signed_data_before W.gen W.fsd_nometa, d_meta (sd_data W.fsd_nometa),
+   o_panic (da_admit W.gen [] [] (BData W.fsd_nometa)), admit_da_data W.gen W.fsd_nometa) = (true, None, false, false).
+Proof. vm_compute. reflexivity. Qed.
+(* the forged header for the next height used to halt the node; now the run equals the genuine one *)
+Example before_the_repair_forgery_halted :
+  node_final W.gen W.now W.tb W.s0 (IDA (BHdr W.fsh1) :: W.genuine) = node_final W.gen W.now W.tb W.s0 W.genuine.
 Proof. vm_compute. reflexivity. Qed.
